@@ -165,6 +165,28 @@ def main():
         if hed > 1e-10:
             ck.violation("hermitian", "propagate", smp, rp)
 
+        # the same system with site phases attached to the basis states
+        # (H -> D H D+, a complex Hermitian Hamiltonian with the same
+        # rotating-wave reference; the baths act through site projectors,
+        # which commute with D): rho(t) -> D rho(t) D+
+        ph = numpy.exp(1j * rng.uniform(0, 2 * numpy.pi, size=ham.dim))
+        ph[0] = 1.0
+        Dm = numpy.diag(ph)
+        hamc = qr.Hamiltonian(data=Dm.dot(numpy.array(
+            ham.data, dtype=complex)).dot(Dm.conj().T))
+        hamc.set_rwa([int(x) for x in ham.rwa_indices])
+        propc = KTHierarchyPropagator(ta, hierarchy(hamc, sbi, depth))
+        rhoc = qr.ReducedDensityMatrix(dim=ham.dim)
+        rhoc.data[:, :] = Dm.dot(numpy.outer(v, v.conj())).dot(Dm.conj().T)
+        rtc = propc.propagate(rhoc).data
+        ge = float(max(numpy.abs(rtc[i] - Dm.dot(rt[i]).dot(Dm.conj().T)
+                                 ).max() for i in range(rt.shape[0])))
+        ck.case("complex-hamiltonian-gauge", ("num", s),
+                sample=dict(smp, gauge_err=ge))
+        if ge > 1e-9:
+            ck.violation("valid-state-complex-hamiltonian", "gauge",
+                         dict(smp, gauge_err=ge), rp)
+
         # zero system-bath coupling -> closed-system dynamics (RWA frame)
         agg0, ta0 = build(N, J=J, reorg=0.0, cortime=cort, T=T, en=en, Nt=Nt)
         ham0 = agg0.get_Hamiltonian()
@@ -186,6 +208,28 @@ def main():
         ck.case("zero-coupling-limit", ("num", s), sample=smp0)
         if worst > 10 * bound + 1e-10:
             ck.violation("zero-coupling-limit", "propagate", smp0, rp)
+        # ... also for a complex Hermitian Hamiltonian (site phases)
+        hamc0 = qr.Hamiltonian(data=Dm.dot(numpy.array(
+            ham0.data, dtype=complex)).dot(Dm.conj().T))
+        hamc0.set_rwa([int(x) for x in ham0.rwa_indices])
+        propc0 = KTHierarchyPropagator(ta0, hierarchy(
+            hamc0, agg0.get_SystemBathInteraction(), depth))
+        rc0 = qr.ReducedDensityMatrix(dim=ham0.dim)
+        vc = Dm.dot(v)
+        rc0.data[:, :] = numpy.outer(vc, vc.conj())
+        r0c = propc0.propagate(rc0).data
+        Hrc = numpy.array(hamc0.data) - numpy.diag(hamc0.rwa_energies)
+        worst = 0.0
+        for i, t in enumerate(ta0.data):
+            U = scipy.linalg.expm(-1j * Hrc * t)
+            worst = max(worst, float(numpy.abs(
+                r0c[i] - U.dot(numpy.outer(vc, vc.conj())).dot(U.conj().T)
+            ).max()))
+        smpc = dict(smp0, err=worst, hamiltonian="complex")
+        ck.case("zero-coupling-limit", ("num", s, "complex"), sample=smpc)
+        if worst > 10 * bound + 1e-10:
+            ck.violation("zero-coupling-limit", "propagate:complex-H", smpc,
+                         rp)
 
     # convergence with depth for uncoupled sites (exactly solvable); the two
     # sites have DIFFERENT baths and every optical and inter-site coherence is
